@@ -753,6 +753,8 @@ impl<'a> GeneratorState<'a> {
                     self.local_label_counter_if += 1;
                     let ifend_label = format!(".ifend{}", self.local_label_counter_if);
                     let else_label = format!(".else{}", self.local_label_counter_if);
+                    // The accumulator is saved on the stack: the condition must not save it again
+                    self.acc_in_use = false;
                     self.generate_condition(expr, pos, false, &else_label, false)?;
                     self.asm(LDA, &ExprType::Immediate(1), pos, false)?;
                     self.asm(JMP, &ExprType::Label(ifend_label.clone()), pos, false)?;
@@ -760,7 +762,9 @@ impl<'a> GeneratorState<'a> {
                     self.asm(LDA, &ExprType::Immediate(0), pos, false)?;
                     self.label(&ifend_label)?;
                     self.asm(STA, &ExprType::Tmp(false), pos, false)?;
+                    self.tmp_in_use = true;
                     self.sasm(PLA)?;
+                    self.acc_in_use = true;
                     Ok(ExprType::Tmp(false))
                 } else {
                     self.local_label_counter_if += 1;
